@@ -89,7 +89,7 @@ impl Property for C13 {
     const ID: &'static str = "C13";
     type Case = Case;
     fn rule() -> String {
-        "cases = (run-time type description, value of that type, serializer options). Values cover options, sequences, tuples, tuple structs, newtype structs, maps with string / integer / bool / composite keys, structs, and unit / newtype / tuple / struct enum variants nested to depth <= 5, serialised through a run-time-schema Serialize impl that calls exactly the serde methods a derived type would call. Exhaustive: a fixed family of all trees of depth <= 2 (thorough 3) with <= 2 children per node over 9 leaf kinds (incl. empty sequence / map, empty and multi-line strings, unit variant, None) x the option family; random deeper trees x random option vectors. Oracle: the emitted text parses into exactly one document and the run-time-schema DeserializeSeed returns the original value. Non-trivial: tree of depth >= 2; distinct = (type, value, options). The evidence carries the covered matrix parent-position x child-kind.".into()
+        "cases = (run-time type description, value of that type, serializer options). Values cover options, sequences, tuples, tuple structs, newtype structs, maps with string / integer / bool / composite keys, structs, and unit / newtype / tuple / struct enum variants nested to depth <= 5, serialised through a run-time-schema Serialize impl that calls exactly the serde methods a derived type would call. Exhaustive: a fixed family of all trees of depth <= 2 (thorough 3) with <= 2 children per node over 9 leaf kinds (incl. empty sequence / map, empty and multi-line strings, unit variant, None) x the option family; random deeper trees x random option vectors; a block-scalar string below every chain of <= 4 (thorough 5) positions x indent x compact x wrap. Every value is serialised with and without announced collection lengths. Oracle: the emitted text parses into exactly one document and the run-time-schema DeserializeSeed returns the original value. Non-trivial: tree of depth >= 2; distinct = (type, value, options). The evidence carries the covered matrix parent-position x child-kind.".into()
     }
     fn assumptions() -> Vec<String> {
         vec![
